@@ -128,11 +128,19 @@ Definition add (k : bytes) (v : entry) (m : emap) : emap := (k, v) :: del k m.
 
 (* ---------------------------------------------------------------- one line's information *)
 Inductive ltype := TTbd | TDir | TFile | TSym | TDev.
+(* src=: where the contents of a `file` entry come from instead of its own name in the build root.
+   [SRoot p]: "$$stageroot" ++ p, i.e. path.Join(root, p) -- a name inside the build root;
+   [SAbs p st]: the absolute path p of the host, used verbatim; st is what lstat finds there
+   (None = ENOENT).  The parser leaves st empty; [resolve_op] fills it in from the input's table
+   of outside files before the script is run (the run does not change those files, so looking
+   at them beforehand or at the time of the line is the same). *)
+Inductive srcref := SRoot (p : bytes) | SAbs (p : bytes) (st : option node).
 Record lineinfo := MkLI {
   li_type : ltype; li_name : bytes; li_wild : bool;
   li_targ : bool;      (* a targ= option was given *)
   li_dev : bool;       (* a dev= option was given *)
-  li_skip : bool }.    (* absent=skip *)
+  li_skip : bool;      (* absent=skip *)
+  li_src : option srcref }.   (* a src= option was given (modelled for type file only) *)
 
 (* stage/expand.go addSingleFile with the source being the name itself *)
 Definition add_single (t : tree) (li : lineinfo) (name : bytes) (m : emap) : res emap :=
@@ -223,15 +231,32 @@ Fixpoint add_all (t : tree) (li : lineinfo) (names : list bytes) (m : emap) : re
   | n :: r => match add_single t li n m with Ok m' => add_all t li r m' | x => x end
   end.
 Definition as_tbd (li : lineinfo) : lineinfo :=
-  MkLI TTbd (li_name li) (li_wild li) (li_targ li) (li_dev li) (li_skip li).
+  MkLI TTbd (li_name li) (li_wild li) (li_targ li) (li_dev li) (li_skip li) None.
 (* addFromWildcard (no src=) *)
 Definition add_wild (t : tree) (li : lineinfo) (m : emap) : res emap :=
   match targets_wild t li with
   | [] => Failed
   | names => add_all t (as_tbd li) names m
   end.
+(* addSingleFile with a source other than the name (type file): nameIsSource is false, so there is
+   no type check against the source and -- the point of this branch -- NO registration of the
+   source's dev/inode: the entry is a regular file of its own (devino = -1) whatever the link
+   count of the source is.  An absent source is an error (ENOENT: "file ... does not exist (source
+   of ...)"; any other lstat error is returned as it is). *)
+Definition src_lstat (t : tree) (s : srcref) : option node :=
+  match s with SRoot p => lstat t p | SAbs _ st => st end.
+Definition add_src (t : tree) (li : lineinfo) (s : srcref) (m : emap) : res emap :=
+  match src_lstat t s with
+  | None => Failed
+  | Some _ => Ok (add (li_name li) (EFile None) m)
+  end.
 Definition add_files (t : tree) (li : lineinfo) (m : emap) : res emap :=
-  if li_wild li then add_wild t li m else add_single t li (li_name li) m.
+  match li_src li with
+  | Some s => if li_wild li then Failed      (* wildcard sources: outside the modelled subset; parse_line
+                                                never yields a src= line with li_wild *)
+              else add_src t li s m
+  | None => if li_wild li then add_wild t li m else add_single t li (li_name li) m
+  end.
 
 (* removeFiles *)
 Definition del_matching (pat : bytes) (m : emap) : emap :=
@@ -323,9 +348,26 @@ Definition dev_value (v : bytes) : bool :=
   end.
 
 Record ost := MkOS { os_targ : bool; os_dev : bool; os_skip : bool; os_perm : bool;
-                     os_err : bool; os_ood : bool }.
-Definition os_fail (s : ost) : ost := MkOS (os_targ s) (os_dev s) (os_skip s) (os_perm s) true (os_ood s).
-Definition os_outside (s : ost) : ost := MkOS (os_targ s) (os_dev s) (os_skip s) (os_perm s) (os_err s) true.
+                     os_err : bool; os_ood : bool; os_src : option srcref }.
+Definition os_fail (s : ost) : ost := MkOS (os_targ s) (os_dev s) (os_skip s) (os_perm s) true (os_ood s) (os_src s).
+Definition os_outside (s : ost) : ost := MkOS (os_targ s) (os_dev s) (os_skip s) (os_perm s) (os_err s) true (os_src s).
+(* the value of src=: "$$stageroot/..." (fs.AdjustPrefixedPath: sigil "$$", name "stageroot", the
+   rest from the first slash on is joined to the root) or an absolute path (used verbatim).
+   Relative paths (joined to the working directory), "~", other prefix names, a bare "$$stageroot"
+   and values with an asterisk or a backslash (wildcard sources, escapes) are outside the
+   modelled subset. *)
+Definition stageroot_pfx : bytes := bs "$$stageroot".
+Definition src_value (v : bytes) : option srcref :=
+  if existsb (fun c => Ascii.eqb c c_star || Ascii.eqb c c_bsl) v then None
+  else if fprefix stageroot_pfx v then
+    match skipn (length stageroot_pfx) v with
+    | c :: r => if Ascii.eqb c c_sl then Some (SRoot (c :: r)) else None
+    | [] => None
+    end
+  else match v with
+       | c :: _ => if Ascii.eqb c c_sl then Some (SAbs v None) else None
+       | [] => None
+       end.
 Definition t_file := bs "file".   Definition t_dir := bs "dir".   Definition t_node := bs "node".
 Definition t_symlink := bs "symlink".   Definition t_tbd := bs "tbd".   Definition t_omit := bs "omit".
 Definition opt_step (ty : bytes) (s : ost) (str : bytes) : ost :=
@@ -338,27 +380,41 @@ Definition opt_step (ty : bytes) (s : ost) (str : bytes) : ost :=
       if forbidden [t_symlink; t_tbd; t_omit] then os_fail s
       else if os_perm s then os_fail s
       else match mod_value val with
-           | VOk => MkOS (os_targ s) (os_dev s) (os_skip s) true (os_err s) (os_ood s)
+           | VOk => MkOS (os_targ s) (os_dev s) (os_skip s) true (os_err s) (os_ood s) (os_src s)
            | VErr => os_fail s
            | VOod => os_outside s
            end
     else if feq key (bs "gid") || feq key (bs "uid") then
       if forbidden [t_symlink; t_tbd; t_omit] then os_fail s
       else match uid_value val with VOk => s | VErr => os_fail s | VOod => os_outside s end
-    else if feq key (bs "src") then os_outside s
+    else if feq key (bs "src") then
+      (* processSourceOption; modelled for `file` lines (a dir/node source is outside the subset) *)
+      if forbidden [t_symlink; t_tbd; t_omit] then os_fail s
+      else if forbidden [t_dir; t_node] then os_outside s
+      else match os_src s with
+           | Some _ => os_fail s                         (* duplicate setting of source *)
+           | None =>
+             match val with
+             | [] => os_fail s                           (* parseSource: empty *)
+             | _ => match src_value val with
+                    | Some r => MkOS (os_targ s) (os_dev s) (os_skip s) (os_perm s) (os_err s) (os_ood s) (Some r)
+                    | None => os_outside s
+                    end
+             end
+           end
     else if feq key (bs "dev") then
       if forbidden [t_file; t_dir; t_symlink; t_tbd; t_omit] then os_fail s
       else if os_dev s then os_fail s
-      else if dev_value val then MkOS (os_targ s) true (os_skip s) (os_perm s) (os_err s) (os_ood s)
+      else if dev_value val then MkOS (os_targ s) true (os_skip s) (os_perm s) (os_err s) (os_ood s) (os_src s)
       else os_fail s
     else if feq key (bs "targ") then
       if forbidden [t_file; t_dir; t_node; t_tbd; t_omit] then os_fail s
       else let '(wild, err) := parse_source val in
            if err || wild then os_fail s
-           else MkOS true (os_dev s) (os_skip s) (os_perm s) (os_err s) (os_ood s)
+           else MkOS true (os_dev s) (os_skip s) (os_perm s) (os_err s) (os_ood s) (os_src s)
     else if feq key (bs "absent") then
       if forbidden [t_omit] then os_fail s
-      else if feq val (bs "skip") then MkOS (os_targ s) (os_dev s) true (os_perm s) (os_err s) (os_ood s)
+      else if feq val (bs "skip") then MkOS (os_targ s) (os_dev s) true (os_perm s) (os_err s) (os_ood s) (os_src s)
       else os_fail s
     else os_fail s
   end.
@@ -380,13 +436,16 @@ Definition parse_line (line : bytes) : op :=
     let '(wild, nerr) := parse_source name in
     let name_ok := (2 <=? N.of_nat (length name)) &&
                    match name with c :: _ => Ascii.eqb c c_sl | [] => false end && negb nerr in
-    let s := fold_left (opt_step ty) opts (MkOS false false false false false false) in
+    let s := fold_left (opt_step ty) opts (MkOS false false false false false false None) in
+    let has_src := match os_src s with Some _ => true | None => false end in
     if os_ood s then OOod
     else if os_err s || negb name_ok then OErr
+    else if has_src && wild then OErr      (* "filename cannot have wildcard when src= option given" *)
+    else if has_src && os_skip s then OOod (* src= with absent=skip: outside the modelled subset *)
     else match kind_of ty with
          | KBad => OErr
          | KOmit => OOmit name wild
-         | KAdd t => OAdd (MkLI t name wild (os_targ s) (os_dev s) (os_skip s))
+         | KAdd t => OAdd (MkLI t name wild (os_targ s) (os_dev s) (os_skip s) (os_src s))
          end
   end.
 
@@ -400,6 +459,19 @@ Definition is_comment (l : bytes) : bool :=
 Definition script_ops (lines : list bytes) : list op :=
   map parse_line (filter (fun l => negb (is_comment l)) (map trim lines)).
 Definition text_lines (text : bytes) : list bytes := split c_nl text.
+(* the outside files a script refers to: what lstat finds at the absolute path of a src= option *)
+Definition resolve_src (ext : list (bytes * node)) (s : srcref) : srcref :=
+  match s with SAbs p _ => SAbs p (assoc p ext) | r => r end.
+Definition resolve_op (ext : list (bytes * node)) (o : op) : op :=
+  match o with
+  | OAdd li =>
+    match li_src li with
+    | Some s => OAdd (MkLI (li_type li) (li_name li) (li_wild li) (li_targ li) (li_dev li) (li_skip li)
+                           (Some (resolve_src ext s)))
+    | None => o
+    end
+  | _ => o
+  end.
 
 Definition run_op (t : tree) (o : op) (m : emap) : res emap :=
   match o with
@@ -503,10 +575,10 @@ Fixpoint all_contents (ps : list pkg) : res (list bytes) :=
   end.
 
 (* ---------------------------------------------------------------- pipeline steps *)
-Definition li_pkgfile (n : bytes) : lineinfo := MkLI TTbd n false false false true.
-Definition li_dir (n : bytes) : lineinfo := MkLI TDir n false false false false.
-Definition li_link (n : bytes) : lineinfo := MkLI TSym n false false false false.
-Definition li_devcopy (n : bytes) : lineinfo := MkLI TDev n false false true false.
+Definition li_pkgfile (n : bytes) : lineinfo := MkLI TTbd n false false false true None.
+Definition li_dir (n : bytes) : lineinfo := MkLI TDir n false false false false None.
+Definition li_link (n : bytes) : lineinfo := MkLI TSym n false false false false None.
+Definition li_devcopy (n : bytes) : lineinfo := MkLI TDev n false false true false None.
 
 (* GenerateFileList *)
 Fixpoint add_pkgfiles (t : tree) (ns : list bytes) (m : emap) : res emap :=
@@ -562,7 +634,7 @@ Definition link_candidates (t : tree) : list bytes :=
 Definition recover_links (t : tree) (m : emap) : res emap := recover_each t (link_candidates t) m.
 
 (* AddDirectoriesByName *)
-Definition li_vdb (dir : bytes) : lineinfo := MkLI TDir (dir ++ bs "/*") true false false false.
+Definition li_vdb (dir : bytes) : lineinfo := MkLI TDir (dir ++ bs "/*") true false false false None.
 Fixpoint add_vdb (t : tree) (dirs : list bytes) (m : emap) : res emap :=
   match dirs with
   | [] => Ok m
@@ -654,7 +726,12 @@ Definition tar_member (x : member) : member :=
 
 (* ---------------------------------------------------------------- getStageFileList *)
 Record input := MkIn { i_tree : tree; i_pkgs : list pkg; i_novdb : bool; i_emptydev : bool;
-                       i_script : list bytes }.     (* lines of the -addfiles file ([] = none) *)
+                       i_script : list bytes;       (* lines of the -addfiles file ([] = none) *)
+                       i_ext : list (bytes * node) }.   (* files outside the build root: absolute host
+                                                           path |-> what lstat finds (same inode groups
+                                                           as i_tree: a link count > 1 may span both) *)
+(* the user's script with the outside sources looked up *)
+Definition user_script (i : input) : list op := map (resolve_op (i_ext i)) (script_ops (i_script i)).
 Definition selected (ps : list pkg) : list pkg := filter p_sel ps.
 Definition magic_ops : list op := script_ops (text_lines D_StageMagic).
 Definition stddir_ops : list op := script_ops (text_lines D_StandardStageDirs).
@@ -672,7 +749,7 @@ Definition stage_map (i : input) : res emap :=
   let m6 := exclude u m5 in
   bind (run_ops t stddir_ops m6) (fun m7 =>
   let m8 := add_missing_dirs m7 in
-  bind (run_ops t (script_ops (i_script i)) m8) (fun m9 =>
+  bind (run_ops t (user_script i) m8) (fun m9 =>
   Ok (add_missing_dirs m9)))))))))).
 
 (* Names() of the finalized list, and the members MakeTar writes *)
